@@ -52,11 +52,23 @@ int vnadata_set_fz0_vector(vnadata_t *vdp, int findex,
     }
     ports = MAX(vdp->vd_rows, vdp->vd_columns);
     if (!(vdip->vdi_flags & VF_PER_F_Z0)) {
+	double complex copy[MAX(ports, 1)];
+
+	/*
+	 * The caller's vector may be the object's own ordinary z0
+	 * vector (from vnadata_get_z0_vector or vnadata_get_fz0_vector),
+	 * which the conversion frees: copy it first.
+	 */
+	(void)memcpy((void *)copy, (void *)z0_vector,
+		ports * sizeof(double complex));
 	if (_vnadata_convert_to_fz0(vdip) == -1) {
 	    return -1;
 	}
+	(void)memcpy((void *)vdip->vdi_z0_vector_vector[findex],
+		(void *)copy, ports * sizeof(double complex));
+	return 0;
     }
-    (void)memcpy((void *)vdip->vdi_z0_vector_vector[findex],
+    (void)memmove((void *)vdip->vdi_z0_vector_vector[findex],
 	    (void *)z0_vector, ports * sizeof(double complex));
     return 0;
 }
